@@ -276,3 +276,39 @@ Definition doc_agreesb (nops : N) (lbp rbp lev : N -> N) (left_assoc : bool) : b
   forallb (fun o => forallb (fun o' =>
      Bool.eqb (needL_bp lbp rbp o o') (needL_doc lev o o') &&
      Bool.eqb (needR_bp lbp rbp o o') (needR_doc lev left_assoc o o')) (N_seq nops)) (N_seq nops).
+
+(* ---------------------------------------------------------------------------------------------
+   QueryRouter::parse_condition, the condition parser of the LEGACY entry point QueryRouter::execute
+   (query_router/src/lib.rs): no parentheses; split at the first " OR ", else at the first " AND ",
+   else one comparison `col op value` cut out of whatever text is left (a parenthesis simply becomes
+   part of the column name or of the value: GARBLED stands for such a leaf). *)
+Inductive ltok := LLeaf (n : N) | LAnd | LOr | LLP | LRP.
+Definition GARBLED : N := 99999.
+Fixpoint split_at (is_sep : ltok -> bool) (ts : list ltok) : option (list ltok * list ltok) :=
+  match ts with
+  | [] => None
+  | t :: r => if is_sep t then Some ([], r)
+              else match split_at is_sep r with Some (a, b) => Some (t :: a, b) | None => None end
+  end.
+Fixpoint legacy_cond (fuel : nat) (ts : list ltok) : option expr :=
+  match fuel with
+  | O => None
+  | S f =>
+      match split_at (fun t => match t with LOr => true | _ => false end) ts with
+      | Some (l, r) => match legacy_cond f l, legacy_cond f r with
+                       | Some a, Some b => Some (Bin 0 a b) | _, _ => None end
+      | None =>
+          match split_at (fun t => match t with LAnd => true | _ => false end) ts with
+          | Some (l, r) => match legacy_cond f l, legacy_cond f r with
+                           | Some a, Some b => Some (Bin OP_AND a b) | _, _ => None end
+          | None => match ts with
+                    | [LLeaf n] => Some (Atom n)
+                    | [] => None
+                    | _ => Some (Atom GARBLED)
+                    end
+          end
+      end
+  end.
+(* the same text as tokens of the expression grammar *)
+Definition ltok_tok (t : ltok) : tok :=
+  match t with LLeaf n => TAtom n | LAnd => TOp OP_AND | LOr => TOp 0 | LLP => TLP | LRP => TRP end.
